@@ -1093,8 +1093,65 @@ func (e *c18env) font(sf *shFont, maxLen, perLookup, perSig int, thorough bool) 
 			return true
 		})
 	}
+	// (c) rules of the shaper itself that no lookup of the font describes: automatic fractions (frac, or numr+dnom, around
+	// U+2044): every string over {digit, digit, FRACTION SLASH, space} holding a slash and a digit
+	if c18hasFractions(sf.ft) && !r.Expired() {
+		fl := 5
+		if thorough {
+			fl = 6
+		}
+		n := 0
+		enumTexts([]rune{'1', 0x2044, '2', ' '}, 3, fl, func(idx int, t []rune) bool {
+			if r.Expired() {
+				return false
+			}
+			slash, digit := false, false
+			for _, ru := range t {
+				slash = slash || ru == 0x2044
+				digit = digit || ru == '1' || ru == '2'
+			}
+			if !slash || !digit {
+				return true
+			}
+			n++
+			base := c18case{File: name, Face: sf.idx, Text: t, Script: "Latn", Origin: "shaper:fractions"}
+			e.one(&base, "default")
+			c := base
+			c.RTL = true
+			e.one(&c, "default")
+			if thorough {
+				c = base
+				c.Level = 1
+				e.one(&c, "default")
+			}
+			return true
+		})
+		r.Count("fraction_texts", int64(n))
+		r.Count("faces_with_automatic_fractions", 1)
+	}
 	e.setVar(0)
 	r.Count("faces", 1)
+}
+
+// c18hasFractions: the plan of the face enables automatic fractions (frac, or numr and dnom) and the face maps the slash and digits
+func c18hasFractions(ft *font.Font) bool {
+	for _, ru := range []rune{'1', '2', 0x2044} {
+		if _, ok := ft.NominalGlyph(ru); !ok {
+			return false
+		}
+	}
+	var frac, numr, dnom bool
+	for _, fe := range ft.GSUB.Features {
+		switch fe.Tag {
+		case ot.MustNewTag("frac"):
+			frac = true
+		case ot.MustNewTag("numr"):
+			numr = true
+		case ot.MustNewTag("dnom"):
+			dnom = true
+		}
+	}
+	return frac || (numr && dnom)
 }
 
 func c18Run(tier, shard string, r *mc.Reporter) {
